@@ -508,7 +508,7 @@ def check_group(ctx, binary, g, check, tol, stats):
                 raise vlib.InfraError("property-mode validation rejected line %d of behaviour %d (%s)" % (v1[1], bad, g.label))
         if v[0] == "property":
             keys = v[2]
-            for attempt in range(4):      # findByIP depends on Go map order when two leases hold one address: allow a few attempts
+            for attempt in range(6):      # findByIP depends on Go map order when two leases hold one address: allow a few attempts
                 ok, info = confirm(ctx, binary, [dict(a="reset", cfg=cfgi, mode=g.mode, id=0, storm=0)] + script[1:], g.shape, g.mode, check, keys, tag=g.label + ".confirm", tol=tol, shared=g.shared)
                 if ok:
                     break
@@ -529,7 +529,7 @@ def check_group(ctx, binary, g, check, tol, stats):
             continue
         script = args_of(chunks[owner_i])
         cfgi = json.loads(chunks[owner_i][0])["cfg"]
-        for attempt in range(4):
+        for attempt in range(6):
             ok, info = confirm(ctx, binary, [dict(a="reset", cfg=cfgi, mode=g.mode, id=0, storm=0)] + script[1:], g.shape, g.mode, check, [key], tag=g.label + ".confirm-kf", tol=tol, shared=g.shared)
             if ok:
                 break
@@ -574,64 +574,91 @@ def c10_part(ctx):
     a, b = outs
     if len(a) != len(b):
         raise vlib.InfraError("C10 dhcp: transcripts have different length (%d / %d)" % (len(a), len(b)))
-    beh, steps, reported = -1, 0, set()
+    # behaviours whose transcripts differ
+    beh, steps, differing = -1, 0, {}
     for x, y in zip(a, b):
-        dx = json.loads(x)
-        if dx.get("a") == "reset":
-            beh += 1
+        if x.startswith('{"a":"reset"') or '"a":"reset"' in x[:60]:
+            if json.loads(x).get("a") == "reset":
+                beh += 1
         steps += 1
-        if x == y:
+        if x != y and beh not in differing:
+            differing[beh] = (x, y)
+    # histories whose outcome depends on Go map order are no evidence about the receive buffer: two leases holding one
+    # address (a freed lease keeps its last address: KF_StaleLeaseShadows) make findByIP order dependent
+    maporder, bi = set(), -1
+    for lines in (a, b):
+        bi = -1
+        for x in lines:
+            e = json.loads(x)
+            if e.get("a") == "reset":
+                bi += 1
+            ips = [l["ip"] for l in e.get("leases", []) if l["ip"] != NOA]
+            if len(ips) != len(set(ips)):
+                maporder.add(bi)
+    nondet = [{"behaviour": i, "verdict": "two leases hold one address (map order)"} for i in sorted(maporder & set(differing))]
+    for bi, (x, y) in sorted(differing.items()):
+        if bi in maporder:
             continue
-        dy = json.loads(y)
-        if "panic" in dx or "panic" in dy:
-            continue                      # panics are C08 / C11 material
-        fields = sorted(k for k in set(dx) | set(dy) if dx.get(k) != dy.get(k))
+        shape, mode, h = hs_all[bi]
+        script = [{"a": "reset", "cfg": shape, "mode": mode, "id": 0}] + h
+        verdict, fields = c10_attribute(ctx, binary, script, "c10dhcp.b%d" % bi)
+        if verdict != "aliasing":
+            # the handler itself is not deterministic on this history (Go map order in findByIP, KF_StaleLeaseShadows;
+            # a panic): runs in the SAME buffer mode differ, so the difference says nothing about the receive buffer
+            nondet.append({"behaviour": bi, "verdict": verdict, "shape": shape, "mode": mode})
+            continue
+        dx = json.loads(x)
         key = "C10:dhcp:" + ",".join(fields)
-        if (beh, key) in reported or any(b0 == beh for b0, _ in reported):
-            continue
-        reported.add((beh, key))
-        shape, mode, h = hs_all[beh]
-        # (lead) attribute the difference to the buffer mode before reporting: the handler has behaviour that depends
-        # on Go map iteration order (C11:KF_StaleLeaseShadows), so two runs of the SAME mode may differ.  A difference
-        # counts only if three fresh runs agree with each other, three shared runs agree with each other, and the two
-        # groups differ; anything else is recorded as a nondeterministic history and is not a verdict.
-        one = [{"a": "reset", "cfg": shape, "mode": mode, "id": 0, "storm": 0}] + h
-        sp1 = os.path.join(ctx.scratch, "c10dhcp.one.script")
-        vlib.write_ndjson(sp1, one)
-        groups = {}
-        for tag, extra in (("fresh", []), ("shared", ["-shared"])):
-            runs = []
-            for rep in range(3):
-                tp1 = os.path.join(ctx.scratch, "c10dhcp.one.%s.%d.trace" % (tag, rep))
-                dd1 = os.path.join(ctx.scratch, "c10dhcp.one.%s.%d.d" % (tag, rep))
-                os.makedirs(dd1, exist_ok=True)
-                vlib.run_driver(ctx, binary, ["-script", sp1, "-out", tp1, "-dir", dd1, "-txlog"] + extra, timeout=300)
-                runs.append(open(tp1).read())
-            groups[tag] = runs
-        stable = len(set(groups["fresh"])) == 1 and len(set(groups["shared"])) == 1
-        if not stable or groups["fresh"][0] == groups["shared"][0]:
-            ctx.coverage.setdefault("c10_dhcp_nondeterministic_histories", []).append(
-                {"behaviour": beh, "fields": fields, "fresh_variants": len(set(groups["fresh"])), "shared_variants": len(set(groups["shared"]))})
-            continue
-        ctx.report(key, "dhcp4_spoofer transcript differs between fresh buffers and one reused receive buffer in %s after step %s" %
-                   (fields, json.dumps({k: dx[k] for k in ARGS if k in dx})[:300]),
-                   {"kind": "dhcp", "script": [{"a": "reset", "cfg": shape, "mode": mode, "id": 0}] + h, "fields": fields})
+        ctx.report(key, "dhcp4_spoofer transcript differs between fresh buffers and one reused receive buffer in %s (3 fresh runs agree, 3 shared runs agree, "
+                        "fresh != shared); first difference after step %s" % (fields, json.dumps({k: dx[k] for k in ARGS if k in dx})[:300]),
+                   {"kind": "dhcp", "script": script, "fields": fields})
+    ctx.coverage.setdefault("nondeterministic_histories", []).extend(nondet[:20])
+    ctx.coverage["nondeterministic_history_count"] = ctx.coverage.get("nondeterministic_history_count", 0) + len(nondet)
+    ctx.coverage["map_order_dependent_histories_skipped"] = ctx.coverage.get("map_order_dependent_histories_skipped", 0) + len(maporder)
     return steps, len(distinct)
 
 
+def c10_run(ctx, binary, script, tag, shared):
+    sp = os.path.join(ctx.scratch, tag + ".script")
+    tp = os.path.join(ctx.scratch, tag + ".trace")
+    dd = os.path.join(ctx.scratch, tag + ".d")
+    os.makedirs(dd, exist_ok=True)
+    vlib.write_ndjson(sp, script)
+    vlib.run_driver(ctx, binary, ["-script", sp, "-out", tp, "-dir", dd, "-txlog"] + (["-shared"] if shared else []), timeout=300)
+    return open(tp).read()
+
+
+def c10_attribute(ctx, binary, script, tag, n=4):
+    """Is a fresh/shared difference of this history due to the receive buffer? The history is executed n times with
+    fresh buffers and n times with the shared buffer: 'aliasing' only if all fresh runs agree, all shared runs agree and
+    fresh != shared. Returns (verdict, differing fields)."""
+    fresh = [c10_run(ctx, binary, script, "%s.f%d" % (tag, i), False) for i in range(n)]
+    shared = [c10_run(ctx, binary, script, "%s.s%d" % (tag, i), True) for i in range(n)]
+    if '"panic"' in fresh[0] or '"panic"' in shared[0]:
+        return "panic", []
+    for t in fresh + shared:
+        for x in t.splitlines():
+            ips = [l["ip"] for l in json.loads(x).get("leases", []) if l["ip"] != NOA]
+            if len(ips) != len(set(ips)):
+                return "map-order", []
+    if len(set(fresh)) != 1 or len(set(shared)) != 1:
+        return "nondeterministic", []
+    if fresh[0] == shared[0]:
+        return "same", []
+    fields = set()
+    for x, y in zip(fresh[0].splitlines(), shared[0].splitlines()):
+        if x != y:
+            dx, dy = json.loads(x), json.loads(y)
+            fields |= set(k for k in set(dx) | set(dy) if dx.get(k) != dy.get(k))
+            break
+    return "aliasing", sorted(fields)
+
+
 def c10_replay(ctx, rp):
-    """re-run one recorded C10 dhcp difference: True if the transcripts still differ."""
+    """re-run one recorded C10 dhcp difference: True only if it is again attributable to the receive buffer."""
     binary = build_driver(ctx)
-    sp = os.path.join(ctx.scratch, "c10dhcp.replay.script")
-    vlib.write_ndjson(sp, rp["script"])
-    outs = []
-    for tag, extra in (("fresh", []), ("shared", ["-shared"])):
-        tp = os.path.join(ctx.scratch, "c10dhcp.replay.%s.trace" % tag)
-        dd = os.path.join(ctx.scratch, "c10dhcp.replay.%s.d" % tag)
-        os.makedirs(dd, exist_ok=True)
-        vlib.run_driver(ctx, binary, ["-script", sp, "-out", tp, "-dir", dd, "-txlog"] + extra, timeout=300)
-        outs.append(open(tp).read())
-    return outs[0] != outs[1]
+    verdict, _ = c10_attribute(ctx, binary, rp["script"], "c10dhcp.replay")
+    return verdict == "aliasing"
 
 
 def replay(ctx, path, check):
